@@ -82,6 +82,21 @@ def gen_concat(rng):
     lens = [rng.randint(0 if rng.random() < 0.15 else 1, 5) for _ in range(nparts)]
     total = sum(lens)
     head = gen_stage2(rng, total, grammar)
+    if nparts >= 2 and total >= 3 and rng.random() < 0.08:
+        # an integer list that is increasing inside every part but comes back to an earlier part after a later one:
+        # outside the supported (strictly increasing) form, so it must be refused or answered as numpy answers it
+        groups, off = [], 0
+        for n in lens:
+            groups.append([off + i for i in range(n) if rng.random() < 0.7])
+            off += n
+        groups = [g for g in groups if g]
+        if len(groups) >= 2:
+            merged = []
+            while any(groups):
+                g = rng.choice([g for g in groups if g])
+                merged.append(g.pop(0))
+            if merged != sorted(merged):
+                head = ('l', merged)
     tails = []
     for n in tail:
         ix = gen_stage2(rng, n, True)
